@@ -4,6 +4,7 @@
      Lists    lookup in id-sorted lists, sorted-list extensionality, `sortH` block lemma
      Guarded  the guards (`evOk`/`stepG`/`runG`), a↔b symmetry, closed forms, the append-only stream
      Nodes    per-id effect of every node operation, id discipline
+     Streams  the full stream under every event (incl. disconnect / reestablish), the invariant `Base`
      Refine   every concrete step is an abstract move on every HTLC id
      Counters commitment_signed / revoke_and_ack counters (unguarded system)
      Views    a commitment_signed in flight is the signer's current signing view; amounts agree
@@ -27,7 +28,8 @@ structure Inv (s : Sys) : Prop where
 
 theorem Inv.init (va vb : Nat) : Inv (Sys.init va vb) where
   base := Base.init va vb
-  base' := ⟨NodeOK.init vb, by intro h; exact absurd rfl h⟩
+  base' := ⟨NodeOK.init vb, RaOK.init vb, PausedOK.of_unpaused rfl, rfl, rfl, rfl, fun _ => rfl, Nat.le_refl _,
+    (fun h => by cases h), (fun h => absurd rfl h)⟩
   good := GoodA.init va vb
   good' := by intro id; exact good_init
   view := ViewA.init va vb
@@ -44,11 +46,15 @@ theorem Inv.init (va vb : Nat) : Inv (Sys.init va vb) where
 
 /-- `b` processes the head of the a→b stream: the commitment agrees -/
 theorem agreed_recv_false {s s' : Sys} (inv : Inv s) (h : step s (.recv false) = some s') : s'.agreed = true := by
-  obtain ⟨m, rest, n, okb, hq, hm, e⟩ := step_recv_false h
+  obtain ⟨m', rest', hq', _, hf⟩ := fullAB_recv_false inv.base h
+  obtain ⟨_, m, rest, n, okb, hq, hm, e⟩ := step_recv_false h
+  rw [hq'] at hq
+  injection hq with e1 e2
+  subst e1; subst e2
   subst e
   show (s.agreed && okb) = true
   rw [inv.agreed, Bool.true_and]
-  cases m with
+  cases m' with
   | add id amt => exact (onMsg_add hm).2.1
   | fulfill id => exact (onMsg_fulfill hm).2.1
   | fail id => exact (onMsg_fail hm).2.1
@@ -57,35 +63,34 @@ theorem agreed_recv_false {s s' : Sys} (inv : Inv s) (h : step s (.recv false) =
     obtain ⟨_, eok⟩ := onMsg_cs hm
     have hc : c = s.a.buildView false true := by
       apply inv.view
-      show Msg.cs c ∈ full s.qab s.pendA s.needRaaA s.a.raaSent s.a.owesRaa
-      rw [hq, full_pop]; simp
+      rw [hf]; simp
     rw [eok, hc]
     unfold viewsAgree
-    rw [htlcs_agree hq inv.good inv.good' inv.amt inv.amt' inv.base.ok inv.base'.ok,
-      balance_agree hq inv.bal inv.good inv.good' inv.amt' inv.base.ok inv.base'.ok]
+    rw [htlcs_agree inv.base hq' inv.good inv.good' inv.amt inv.amt' inv.base.ok inv.base'.ok,
+      balance_agree inv.base hq' inv.bal inv.good inv.good' inv.amt' inv.base.ok inv.base'.ok]
     simp
 
 theorem Inv.step {s s' : Sys} {e : Ev} (inv : Inv s) (h : stepG s e = some s') : Inv s' := by
   have h' := stepG_swap h
   have hbs : Base s.swap.swap := by simpa using inv.base
   have hgs : GoodA s.swap.swap := by simpa using inv.good
-  refine ⟨inv.base.step h, inv.base'.step h', inv.good.step inv.base inv.base' h, inv.good'.step inv.base' hbs h',
-    inv.view.step inv.good inv.base h, inv.view'.step inv.good' inv.base' h', inv.amt.step inv.base h,
+  refine ⟨inv.base.step inv.base' h, inv.base'.step hbs h', inv.good.step inv.base inv.base' h, inv.good'.step inv.base' hbs h',
+    inv.view.step inv.good inv.base inv.base' h, inv.view'.step inv.good' inv.base' hbs h', inv.amt.step inv.base h,
     inv.amt'.step inv.base' h', inv.bal.step inv.good inv.good' inv.base inv.base' inv.amt inv.amt' h, ?_⟩
   obtain ⟨_, h0⟩ := stepG_some h
   cases e with
   | commit x adds fu fa =>
     cases x
-    · obtain ⟨_, n, ms, _, e⟩ := step_commit_false h0; subst e; exact inv.agreed
-    · obtain ⟨_, n, ms, _, e⟩ := step_commit_true h0; subst e; exact inv.agreed
+    · obtain ⟨_, _, n, ms, _, e⟩ := step_commit_false h0; subst e; exact inv.agreed
+    · obtain ⟨_, _, n, ms, _, e⟩ := step_commit_true h0; subst e; exact inv.agreed
   | release x =>
     cases x
-    · obtain ⟨_, _, e⟩ := step_release_false h0; subst e; exact inv.agreed
-    · obtain ⟨_, _, e⟩ := step_release_true h0; subst e; exact inv.agreed
+    · obtain ⟨_, _, _, e⟩ := step_release_false h0; subst e; exact inv.agreed
+    · obtain ⟨_, _, _, e⟩ := step_release_true h0; subst e; exact inv.agreed
   | sendRaa x =>
     cases x
-    · obtain ⟨_, e⟩ := step_sendRaa_false h0; subst e; exact inv.agreed
-    · obtain ⟨_, e⟩ := step_sendRaa_true h0; subst e; exact inv.agreed
+    · obtain ⟨_, _, e⟩ := step_sendRaa_false h0; subst e; exact inv.agreed
+    · obtain ⟨_, _, e⟩ := step_sendRaa_true h0; subst e; exact inv.agreed
   | recv y =>
     cases y
     · exact agreed_recv_false inv h0
@@ -96,6 +101,11 @@ theorem Inv.step {s s' : Sys} {e : Ev} (inv : Inv s) (h : stepG s e = some s') :
         have := step_swap s (.recv true); rw [h0] at this; exact this
       show s'.swap.agreed = true
       exact agreed_recv_false inv' h0'
+  | disconnect => have e := step_disconnect h0; subst e; exact inv.agreed
+  | reest y =>
+    cases y
+    · obtain ⟨n, p, _, e⟩ := step_reest_false h0; subst e; exact inv.agreed
+    · obtain ⟨n, p, _, e⟩ := step_reest_true h0; subst e; exact inv.agreed
 
 theorem Inv.run {va vb : Nat} {evs : List Ev} {s : Sys} (h : runG (Sys.init va vb) evs = some s) : Inv s :=
   runG_induction Inv (fun _ _ _ hi hs => hi.step hs) evs _ _ (Inv.init va vb) h
